@@ -1,7 +1,11 @@
 #!/bin/sh
-# runs every registered quick (or $1) check, prints exit codes
+# runs every registered check in the given tier (default quick), prints exit codes
 TIER=${1:-quick}
+LIMIT=${2:-7200}
+mkdir -p /verif/.work
 for id in $(python3 -c "import json;print(' '.join(c['property_id'] for c in json.load(open('/verif/MANIFEST.json'))['checks']))"); do
-  /verif/bin/check $id --tier $TIER > /verif/.work/run_$id.log 2>&1
-  echo "$id exit=$? $(tail -1 /verif/.work/run_$id.log)"
+  t0=$(date +%s)
+  timeout $LIMIT /verif/bin/check $id --tier $TIER > /verif/.work/run_${TIER}_$id.log 2>&1
+  rc=$?
+  echo "$id exit=$rc wall=$(( $(date +%s) - t0 ))s $(tail -1 /verif/.work/run_${TIER}_$id.log | cut -c1-200)"
 done
